@@ -546,7 +546,6 @@ func runRaceJob(j *Job, res *JobResult) {
 	res.Out = "ok"
 }
 
-
 // racePoolProbe provokes one failing buffered copy (an archive truncated inside a file body, extracted
 // into a scratch directory), then drains the copy-buffer pool through the verif hook: a buffer that comes
 // out twice was put back twice, and two later operations would share it.
